@@ -169,6 +169,10 @@ def _laws(obj, label, fails, args, imp, check_repr=True):
             try:
                 r = repr(v)
                 e = eval(r, dict(imp), {})
+            except SyntaxError:
+                if r.startswith("cirq") and r.endswith(")") and "<" not in r and "\n" not in r:
+                    bad("repr-differs", f"repr(v) of {type(v).__name__} is written as a constructor call but is not valid Python: {r[:160]}")
+                continue
             except Exception:
                 continue  # classes without an evaluable repr are listed by upstream's spec files; not part of this clause
             if not _eq(e, v):
@@ -292,7 +296,7 @@ def _families(rng):
                                      cirq.X(q[1]).with_classical_controls(cirq.KeyCondition(cirq.MeasurementKey("m"), index=0), cirq.BitMaskKeyCondition("k", index=0, bitmask=1)),
                                      cirq.CliffordGate.from_op_list([cirq.H(q[0]), cirq.CNOT(q[0], q[1])], q[:2]), cirq.SingleQubitCliffordGate.X_sqrt,
                                      cirq.Duration(picos=3), cirq.Duration(nanos=sympy.Symbol("t")), cirq.LinearDict({"X": 0.5 + 1j, "Z": -2}),
-                                     cirq.MeasurementKey("m", path=("a", "b")), cirq.Linspace("a", 0, 1, 5, metadata="md"), cirq.Points("b", [1, 2.5], metadata=q[0]),
+                                     cirq.MeasurementKey("m", path=("a", "b")), cirq.MeasurementKey("it's"), cirq.measure(q[0], key="a \"quoted\" key"), cirq.Linspace("a", 0, 1, 5, metadata="md"), cirq.Points("b", [1, 2.5], metadata=q[0]),
                                      cirq.Points("a", [1, 2], metadata=0), cirq.Linspace("a", 0, 1, 3, metadata=False), cirq.Points("a", [0.5], metadata=""), cirq.Zip(cirq.Points("a", [1, 2], metadata=0.0), cirq.Linspace("b", 0, 1, 2, metadata=cirq.Duration())),
                                      cirq.Zip(cirq.Points("a", [1, 2]), cirq.Points("b", [3, 4])) * cirq.Linspace("c", 0, 1, 2), cirq.ZipLongest(cirq.Points("a", [1, 2, 3]), cirq.Points("b", [3])),
                                      cirq.Concat(cirq.Points("a", [1]), cirq.Points("a", [2, 3]))]),
